@@ -337,6 +337,9 @@ fn gen_composite(rng: &mut Rng, ng: usize) -> G {
     let n = 1 + rng.below(3) as usize;
     let mut comps = vec![];
     let has_instr = rng.chance(1, 3);
+    // WE_HAVE_INSTRUCTIONS on any one component announces the instructions: the carrier is any
+    // component, not necessarily the last
+    let carrier = rng.below(n as u64) as usize;
     for k in 0..n {
         let mut flags: u16 = 0;
         let words = rng.chance(1, 2);
@@ -370,7 +373,7 @@ fn gen_composite(rng: &mut Rng, ng: usize) -> G {
         if k + 1 < n {
             flags |= 0x20;
         }
-        if has_instr && (k + 1 == n || rng.chance(1, 4)) {
+        if has_instr && (k == carrier || rng.chance(1, 4)) {
             flags |= 0x100;
         }
         let arg = |rng: &mut Rng| -> i32 {
